@@ -279,10 +279,16 @@ def run_case(case, tape, ctx):
             elif r[0] == 'exc':
                 nfail += 1
                 want = EXPECTED_EXC.get(r[3])
-                if want is None:
+                if want is None and pr[r[1]] == 'ERR:' + r[2]:
+                    # the graph cannot be built at all on this tree, always
+                    # in the same way: nothing to compare
+                    stats['corpus-graph-always-raises'] = 1
+                elif want is None:
                     viol.add('C20-2', 'good-build-raised',
                              f'a correct build of {r[1]} in thread {ti} '
                              f'raised {r[2]}')
+                elif r[2] != want and pr[r[1]] == 'ERR:' + r[2]:
+                    stats['corpus-graph-always-raises'] = 1
                 elif r[2] != want:
                     viol.add('C20-2', f'failing-build-raised-{r[2]}',
                              f'build of {r[1]} failing by {r[3]} raised '
@@ -304,7 +310,9 @@ def run_case(case, tape, ctx):
                  'a unit generator created outside any build belongs to a '
                  'definition')
     for r in res['post']:
-        if r[0] != 'ok':
+        if r[0] != 'ok' and pr[r[1]] == 'ERR:' + r[2]:
+            stats['corpus-graph-always-raises'] = 1
+        elif r[0] != 'ok':
             viol.add('C20-2', 'later-build-raised',
                      f'a build after the run raised {r[2]}')
         elif r[2] != pr[r[1]]:
@@ -344,8 +352,8 @@ sc3.init(sys.argv[3])
 from props import c20_corpus as CC
 out = {}
 for name in CC.CORPUS:
-    a = bytes(CC.build(name).as_bytes())
-    b = bytes(CC.build(name).as_bytes())
+    a = CC.build_hex(name).encode()
+    b = CC.build_hex(name).encode()
     out[name] = [hashlib.sha1(a).hexdigest(), hashlib.sha1(b).hexdigest()]
 print(json.dumps(out))
 import os; os._exit(0)
